@@ -1035,3 +1035,6 @@ func (g *KGraph) ReachLive(roots []*ssa.Function, skip func(*KEdge) bool) *KReac
 	_, lt := g.Live()
 	return g.reachFiltered(roots, skip, lt)
 }
+
+// TraceFuncOf resolves a closure value to the functions it runs.
+func (g *KGraph) TraceFuncOf(mc *ssa.MakeClosure) []*ssa.Function { return g.resolveClosure(mc) }
